@@ -69,7 +69,7 @@ class Net:
                 spec = {"addr": spec}
             cls = spec.get("cls", H.RF24Network)
             key = spec.get("key", spec.get("addr"))
-            n, r = H.mk_node(self.w, spec.get("pre_addr", spec.get("addr", 0)), cls=cls, cost=base + k * US,
+            n, r = H.mk_node(self.w, spec.get("pre_addr", spec.get("addr", 0)), cls=cls, cost=spec.get("cost", base + k * US),
                              name=spec.get("name") or ("n%o" % key if isinstance(key, int) else str(key)),
                              spilog=spilog, node_id=spec.get("node_id"))
             for attr, val in spec.get("attrs", {}).items():
